@@ -152,7 +152,7 @@ def decisions(res, unit):
         res.executions += 1
         res.by_bound[0] += 1
         res.status["ok"] += 1
-        case = (name, n, fits)
+        case = (name, n, tuple("nan" if f != f else f for f in fits))
         res.states.add(h64(case))
         out = []
         for mx in (False, True):
@@ -164,11 +164,13 @@ def decisions(res, unit):
         if len(set(fits)) > 1:
             res.nontrivial.add(h64(case))
         if out[0] != out[1]:
-            rep = {"check": ID, "unit": {"kind": "decision"}, "desc": {"decision": name, "n": n, "fits": list(fits), "points": pts}, "dev": []}
+            rep = {"check": ID, "unit": {"kind": "decision"}, "desc": {"decision": name, "n": n, "fits": [None if f != f else f for f in fits], "points": pts}, "dev": []}
             res.add_violation(ID, f"C13/decision-differs:{name}", f"{name} on fitness ranks {fits} (minimise) vs negated (maximise): selects {out[0]} vs {out[1]}", {}, rep)
 
     def ordering(inds, mx):
-        return [(i, j, inds[i] < inds[j], inds[i] == inds[j], inds[i] > inds[j]) for i in range(len(inds)) for j in range(len(inds))]
+        # NaN against NaN is settled at random by design: not a decision to compare
+        return [(i, j, inds[i] < inds[j], inds[i] == inds[j], inds[i] > inds[j]) for i in range(len(inds)) for j in range(len(inds))
+                if not (inds[i].fitness != inds[i].fitness and inds[j].fitness != inds[j].fitness)]
 
     def topk(k):
         def f(inds, mx):
@@ -244,6 +246,17 @@ def decisions(res, unit):
     def best(inds, mx):
         return [idx(inds, [max(inds)]), idx(inds, sorted(inds)), idx(inds, sorted(inds, reverse=True))]
 
+    nan = float("nan")
+    if n <= 4:
+        # one individual whose fitness is NaN (objective undefined there): must be treated alike in both formulations
+        for fits in weak_orderings(n):
+            nf = tuple(nan if i == 0 else f for i, f in enumerate(fits))
+            both("individual-ordering(one NaN)", ordering, nf)
+            both("max/sorted(one NaN)", best, nf)
+            both("tournament(one NaN)", tournament, nf)
+            if len(set(fits[1:])) == n - 1:
+                both("topk(1)(one NaN)", topk(1), nf)
+                both("DemeLimit(1)(one NaN)", demelimit(1), nf)
     for fits in weak_orderings(n):
         both("individual-ordering", ordering, fits)
         both("max/sorted", best, fits)
@@ -287,6 +300,10 @@ def units(tier, seed):
         for obj in ("nanhole", "nanhalf"):
             k += 1
             descs.append(dict(engines=list(eng), gens=2, Mh=3, seed=s + k % 3, sprout={"kind": ("simple", "nbc")[k % 2], "L": 2}, obj=obj, box="B_asym", pop=(6, 10)[k % 2]))
+    # a memoising objective that returns the 0-d arrays it keeps (in-place sign flips would corrupt it)
+    for eng in [e for e in shapes if len(e) == 2][::3]:
+        k += 1
+        descs.append(dict(engines=list(eng), gens=1, Mh=3, seed=s + k % 3, sprout={"kind": ("simple", "nbc")[k % 2], "L": 2}, obj=("sphere_in", "twofunnel")[k % 2], array_memo=True))
     us = [{"kind": "twin", "descs": c} for c in chunks(descs, 12)]
     for n in (2, 3, 4, 5) if tier == "quick" else (2, 3, 4, 5, 6):
         us.append({"kind": "decisions", "n": n})
